@@ -95,6 +95,22 @@ func c10Lookup(w *W, st ref.Stamp, base int, class string) {
 		key := fmt.Sprintf("%s/sect%d/base%d", fmtStamp(st), sect, base)
 		w.Cur("C10 lookup " + key)
 		p := c10Pillars(st, sect)
+		// now and then the same pillars are asked under other base years straight before (the answer for this base year
+		// must not remember them): 60 and 120 years earlier, and a later one that excludes the moment itself
+		if (st.D+st.Mi+st.S)%7 == 0 {
+			for _, b := range []int{base - 60, base - 120, st.Y + 1} {
+				if b >= 1 {
+					lb := calendar.ListSolarFromBaZiBySectAndBaseYear(p[0], p[1], p[2], p[3], sect, b)
+					for e := lb.Front(); e != nil; e = e.Next() {
+						if r := stampOf(e.Value.(*calendar.Solar)); r.Y < b {
+							w.Violatef("base-year", fmt.Sprintf("%s/base%d/%s", key, b, fmtStamp(r)), "lookup with base year %d returned %s", b, fmtStamp(r))
+						}
+					}
+					w.Eval(1)
+				}
+			}
+			w.Count("lookups-preceded-by-other-base-years", 1)
+		}
 		l := calendar.ListSolarFromBaZiBySectAndBaseYear(p[0], p[1], p[2], p[3], sect, base)
 		var got []ref.Stamp
 		for e := l.Front(); e != nil; e = e.Next() {
